@@ -10,6 +10,7 @@ import (
 
 // Datagram is one message in flight between two packet sockets.
 type Datagram struct {
+	FlowN    int // ordinal of this datagram within its (from,to) flow
 	Seq      int
 	Network  string
 	From, To net.Addr
@@ -142,6 +143,12 @@ func (s *PacketSock) WriteTo(p []byte, addr net.Addr) (int, error) {
 	}
 	n.dgramSeq++
 	d := &Datagram{Seq: n.dgramSeq, Network: family(s.network), From: s.laddr, To: addr, Data: append([]byte(nil), p...)}
+	if n.flowCount == nil {
+		n.flowCount = map[string]int{}
+	}
+	fk := d.From.String() + ">" + d.To.String()
+	n.flowCount[fk]++
+	d.FlowN = n.flowCount[fk]
 	n.flight = append(n.flight, d)
 	if n.dgramTapOn {
 		n.dgramTap = append(n.dgramTap, d.Data...)
@@ -207,6 +214,7 @@ func (s *PacketSock) IsClosed() bool {
 // ---------------------------------------------------------------- driver operations on datagrams
 
 type DgramState struct {
+	FlowN int
 	Seq  int
 	From string
 	To   string
@@ -214,7 +222,7 @@ type DgramState struct {
 }
 
 func (d DgramState) Desc() string {
-	return "#" + strconv.Itoa(d.Seq) + " " + d.From + ">" + d.To + " " + strconv.Itoa(d.Len) + "B"
+	return d.From + ">" + d.To + " #" + strconv.Itoa(d.FlowN) + " " + strconv.Itoa(d.Len) + "B"
 }
 
 func (n *Network) Flight() []DgramState {
@@ -222,7 +230,7 @@ func (n *Network) Flight() []DgramState {
 	defer n.mu.Unlock()
 	out := make([]DgramState, 0, len(n.flight))
 	for _, d := range n.flight {
-		out = append(out, DgramState{Seq: d.Seq, From: d.From.String(), To: d.To.String(), Len: len(d.Data)})
+		out = append(out, DgramState{FlowN: d.FlowN, Seq: d.Seq, From: d.From.String(), To: d.To.String(), Len: len(d.Data)})
 	}
 	return out
 }
